@@ -117,7 +117,8 @@ def gen_cases(rng, n, tier):
     cases = []
     while len(cases) < n:
         u = rng.random()
-        sc = 1.0 if rng.random() < 0.5 else 2.0 ** (rng.randint(-10, 10) if tier != "thorough" else rng.randint(-30, 30))
+        r_sc = rng.random()
+        sc = 1.0 if r_sc < 0.45 else 2.0 ** (rng.randint(-10, 10) if r_sc < 0.8 else rng.randint(-30, 30))
         exact = rng.random() < 0.65
         closed = rng.random() < 0.45
         pts = (_pyth_closed(rng, sc) if closed else _pyth_polyline(rng, sc)) if exact else _generic_polyline(rng, sc)
